@@ -278,6 +278,27 @@ def probe_cases():
     ]
 
 
+# --- held-up family: the source has a short HandlerTimeout, the (local) target is
+# slow - its transition is held for several timeouts.  "Piping never blocks or
+# cancels the source transition": the source mutation must come back Executed.
+def heldup_cases():
+    out = []
+    ms = 80
+    hold = dict(k="sleep", us=4 * ms * 1000)
+    for bind, flat, states, tstates in [
+            ("Bind", False, ["A"], ["TA"]), ("BindMany", False, ["A", "B"], ["A", "B"]),
+            ("BindReady", False, ["Ready"], ["TReady"]), ("BindStart", False, ["Start"], ["Start"]),
+            ("Manual", False, ["A"], ["A"]), ("Manual", True, ["A"], ["A"])]:
+        script = [src("add", states[:1]), dict(k="relany"), hold, dict(k="stepany"),
+                  src("remove", states[:1]), dict(k="relany"), hold, dict(k="stepany"),
+                  dict(k="stepany"), QUIET]
+        c = case("heldup-%s-%s" % (bind, "flat" if flat else "nonflat"), bind, states, tstates,
+                 flat=flat, slow=True, script=script)
+        c["srcTimeoutMs"] = ms
+        out.append(c)
+    return out
+
+
 # --- random gated / free-running cases over all binds
 def rand_cases(rng, n, gated):
     out = []
@@ -476,9 +497,12 @@ def select_variant(binary, d, rep):
 
 def cause_of(lines, formula):
     """Label of the mechanism behind a violated case (for the signature)."""
-    if formula in ("SourceNeverBlocked", "SourceNeverCanceled"):
-        return "inline-call-on-nonlocal-target"
     init = lines[0]
+    if formula in ("SourceNeverBlocked", "SourceNeverCanceled"):
+        return "inline-call-on-local-target" if init["local"] else "inline-call-on-nonlocal-target"
+    if any(x["ev"] == "sret" and x["res"] != "executed" for x in lines) and init["local"]:
+        # a source mutation was canceled by piping: source and target part for good
+        return "inline-call-on-local-target"
     anymode = init["mode"] == "any"
     pend = []        # delivered, not yet processed (queue incl. the running one)
     fl = {}          # in flight
@@ -642,9 +666,10 @@ def check(tier):
         nr, nf = (260, 1000) if tier == "quick" else (8000, 40000)
         rcases = rand_cases(rng, nr, True)
         fcases = rand_cases(rng, nf, False)
-        by_label = {c["label"]: c for c in cases + rcases + fcases}
+        hcases = heldup_cases()
+        by_label = {c["label"]: c for c in cases + rcases + hcases + fcases}
 
-        gfiles, gout = run_driver(binary, cases + rcases, os.path.join(d, "gated"))
+        gfiles, gout = run_driver(binary, cases + rcases + hcases, os.path.join(d, "gated"))
         ffiles, fout = run_driver(binary, fcases, os.path.join(d, "free"), workers=4)
         gviol, gdrift, gstat = validate(gfiles, flags, True)
         fviol, fdrift, fstat = validate(ffiles, flags, False)
